@@ -73,6 +73,11 @@ def check(repo, col, tier):
     from . import c10
     col.rule("R-C05-derived", "geometry given at simulation time reaches the coupling conductances", 1)
     c10.derived_after_overrides(repo, col, "R-C05-derived")
+    # the gradient with respect to a data-fed input is the sensitivity to the current in ITS compartment: values and row
+    # indices of inputs must be merged in the same order (shared with C08/C11/C19)
+    from . import c08
+    col.rule("R-C05-pairing", "data-fed inputs and their row indices are merged in the same order", 3)
+    c08._pairing(repo, col, "R-C05-pairing")
 
 
 def _promises(repo, col):
